@@ -6,8 +6,9 @@ package go9p
 // Transport (vxCConn). kit_net.go's vxNetConn is fine for the server side, but its Close only sets a flag: a Read
 // that is already parked stays parked, whereas Close on a real net.Conn fails pending Reads. The client relies on
 // exactly that (Unmount, and send/recv closing the socket on errors), so the client kit has its own net.Conn:
-//   * Read  : next segment pushed by the peer; never (0,nil); after the peer's end-of-stream marker: io.EOF for
-//             good (data pushed before the marker is delivered first, like a TCP FIN); after a local Close: error.
+//   * Read  : next segment pushed by the peer; never (0,nil) for a non-empty buffer, (0,nil) for an empty one (what
+//             net.Conn implementations do); after the peer's end-of-stream marker: io.EOF for good (data pushed
+//             before the marker is delivered first, like a TCP FIN); after a local Close: error.
 //   * Write : appends to the wire log and notifies the peer (inline hook or onWrite channel); fails after Close or
 //             once failWriteAt bytes would be exceeded. Write never blocks (a peer that stops reading is outside).
 //   * Close : idempotent; wakes a parked Read.
@@ -15,6 +16,7 @@ package go9p
 import (
 	"io"
 	"net"
+	"runtime"
 	"strings"
 	"sync"
 	"sync/atomic"
@@ -31,10 +33,11 @@ type vxCConn struct {
 	wire        []byte // everything the library wrote
 	nwrites     int
 	nclose      int32
-	failWriteAt int         // a Write that would make len(wire) exceed this fails (<0: never)
-	hook        func()      // called (in the writer's goroutine) after every successful Write
-	onWrite     chan int    // alternatively: notification per Write for a peer goroutine
-	nread       int         // bytes handed to the library
+	failWriteAt int            // a Write that would make len(wire) exceed this fails (<0: never)
+	hook        func(b []byte) // called (in the writer's goroutine) after every successful Write, with a copy of the bytes
+	onWrite     chan []byte    // alternatively: a copy of the bytes of every Write, for a peer goroutine
+	nread       int64          // bytes handed to the library (atomic)
+	readMax     int            // > 0: a Read returns at most this many bytes (models finer segmentation)
 }
 
 func vxNewCConn() *vxCConn {
@@ -69,11 +72,16 @@ func (c *vxCConn) Read(p []byte) (int, error) {
 			return 0, vxErrConnClosed
 		}
 	}
+	if c.readMax > 0 && len(p) > c.readMax {
+		p = p[:c.readMax]
+	}
 	n := copy(p, c.cur)
 	c.cur = c.cur[n:]
-	c.nread += n
+	atomic.AddInt64(&c.nread, int64(n))
 	return n, nil
 }
+
+func (c *vxCConn) bytesRead() int { return int(atomic.LoadInt64(&c.nread)) }
 
 func (c *vxCConn) isClosed() bool { return atomic.LoadUint32(&c.closedFlag) != 0 }
 
@@ -86,11 +94,15 @@ func (c *vxCConn) Write(p []byte) (int, error) {
 	}
 	c.wire = append(c.wire, p...)
 	c.nwrites++
-	if c.hook != nil {
-		c.hook()
-	}
-	if c.onWrite != nil {
-		c.onWrite <- len(p)
+	if c.hook != nil || c.onWrite != nil {
+		b := make([]byte, len(p))
+		copy(b, p)
+		if c.hook != nil {
+			c.hook(b)
+		}
+		if c.onWrite != nil {
+			c.onWrite <- b
+		}
 	}
 	return len(p), nil
 }
@@ -206,16 +218,18 @@ type vxPReq struct {
 }
 
 type vxPeer struct {
-	nc       *vxCConn
-	dotu     bool
-	seen     int // bytes of nc.wire already split into frames
-	reqs     []*vxPReq
-	dupTag   bool // a request arrived whose tag equals that of an unanswered earlier request
-	badWire  bool // the client wrote something that is not a sequence of frames
-	maxOut   int  // largest number of simultaneously outstanding requests seen
-	onReq    func(p *vxPeer, r *vxPReq) // strategy: called once per arriving request
-	sentLen  int                        // bytes pushed so far
-	stopped  bool
+	nc      *vxCConn
+	dotu    bool
+	wire    []byte // the bytes the peer was handed so far (its own copy: it never looks at the connection's log)
+	seen    int    // bytes of wire already split into frames
+	reqs    []*vxPReq
+	dupTag  bool                       // a request arrived whose tag equals that of an unanswered earlier request
+	badWire bool                       // the client wrote something that is not a sequence of frames
+	maxOut  int                        // largest number of simultaneously outstanding requests seen
+	onReq   func(p *vxPeer, r *vxPReq) // strategy: called once per arriving request
+	sentLen int                        // bytes pushed so far
+	stopped uint32                     // atomic: 1 = the strategy is no longer consulted
+	gen     uint32                     // atomic: bumped after every absorb (see sync)
 }
 
 // vxNewPeer installs the peer as the connection's inline write hook: it runs in the goroutine that called Write,
@@ -230,11 +244,10 @@ func vxNewPeer(nc *vxCConn, dotu bool, onReq func(p *vxPeer, r *vxPReq)) *vxPeer
 // vxNewPeerGo runs the same peer as a goroutine of its own, woken through nc.onWrite.
 func vxNewPeerGo(nc *vxCConn, dotu bool, onReq func(p *vxPeer, r *vxPReq)) *vxPeer {
 	p := &vxPeer{nc: nc, dotu: dotu, onReq: onReq}
-	nc.onWrite = make(chan int, 64)
+	nc.onWrite = make(chan []byte, 64)
 	go func() {
 		for {
-			<-nc.onWrite
-			p.absorb()
+			p.absorb(<-nc.onWrite)
 		}
 	}()
 	return p
@@ -251,8 +264,9 @@ func (p *vxPeer) outstanding() int {
 }
 
 // absorb splits newly written bytes into frames, checks tag distinctness, and lets the strategy react.
-func (p *vxPeer) absorb() {
-	fs, ok := vxCFrames(p.nc.wire[p.seen:])
+func (p *vxPeer) absorb(b []byte) {
+	p.wire = append(p.wire, b...)
+	fs, ok := vxCFrames(p.wire[p.seen:])
 	if !ok {
 		// the library writes one whole frame per Write, so a partial frame here is a library defect
 		p.badWire = true
@@ -269,11 +283,24 @@ func (p *vxPeer) absorb() {
 		if n := p.outstanding(); n > p.maxOut {
 			p.maxOut = n
 		}
-		if p.onReq != nil && !p.stopped {
+		if p.onReq != nil && atomic.LoadUint32(&p.stopped) == 0 {
 			p.onReq(p, r)
 		}
 	}
+	atomic.AddUint32(&p.gen, 1)
 }
+
+// stop: the strategy is not consulted for later requests.
+func (p *vxPeer) stop() { atomic.StoreUint32(&p.stopped, 1) }
+
+// sync orders everything the peer did (in whichever goroutine called Write) before what the caller does next.
+// Harness bookkeeping is shared between goroutines; under the engine a quiescent state is a global cut anyway, but
+// natively (witness and counterexample replays, also under the race detector) an atomic release/acquire pair is
+// what makes reading it after vxQuiesce() well defined, and keeps the race detector quiet about harness code.
+func (p *vxPeer) sync() { atomic.LoadUint32(&p.gen) }
+
+// synced: how many Writes the peer has digested so far.
+func (p *vxPeer) synced() int { return int(atomic.LoadUint32(&p.gen)) }
 
 // send pushes a reply for r (cut in two segments at cut if 0 < cut < len).
 func (p *vxPeer) send(r *vxPReq, pkt []byte, cut int) {
@@ -405,12 +432,12 @@ type vxCaller struct {
 	data   []byte   // Twrite payload
 	names  []string // Twalk names (one byte each)
 	// results
-	returned bool
-	err      error
-	rdata    []byte
-	rcount   int
-	rdir     *Dir
-	rqids    []Qid
+	fin    uint32 // atomic: 1 once the call has returned and the results above are final
+	err    error
+	rdata  []byte
+	rcount int
+	rdir   *Dir
+	rqids  []Qid
 }
 
 func vxFidNo(i int) uint32 { return uint32(100 + i) }
@@ -444,8 +471,11 @@ func (c *vxCaller) call(clnt *Clnt) {
 	case vxOpWalk:
 		c.rqids, c.err = clnt.Walk(c.fid, c.newfid, c.names)
 	}
-	c.returned = true
+	atomic.StoreUint32(&c.fin, 1)
 }
+
+// returned: the call has come back (acquire: the result fields may be read afterwards).
+func (c *vxCaller) returned() bool { return atomic.LoadUint32(&c.fin) != 0 }
 
 // wantRequest: the exact bytes this caller's request must have on the wire (for a given tag), built with the
 // independent encoder.
@@ -520,13 +550,14 @@ func (p *vxPeer) findReq(fid uint32, from int) *vxPReq {
 // (nothing is runnable any more, and the finding's message lists where every goroutine is parked); natively it is
 // an assertion failure.
 func vxAwaitCallers(cs []*vxCaller) bool {
-	vxQuiesce()
-	all := true
-	for _, c := range cs {
-		if !c.returned {
-			all = false
+	all := vxSettle(func() bool {
+		for _, c := range cs {
+			if !c.returned() {
+				return false
+			}
 		}
-	}
+		return true
+	})
 	if !all {
 		if vxSymbolic() {
 			desc := vxParkedDesc()
@@ -539,9 +570,35 @@ func vxAwaitCallers(cs []*vxCaller) bool {
 				vxHangCallerNeverReturned()
 			}
 		}
+		// native run: say where the goroutines are (never executed under the engine)
+		buf := make([]byte, 1<<16)
+		buf = buf[:runtime.Stack(buf, true)]
+		for _, g := range strings.Split(string(buf), "\n\n") {
+			if strings.Contains(g, "go9p.(*Clnt)") {
+				lines := strings.Split(g, "\n")
+				if len(lines) > 7 {
+					lines = lines[:7]
+				}
+				vxEvent("stuck goroutine: " + strings.Join(lines, " | "))
+			}
+		}
 		vxAssert(false, "every-call-returns")
 	}
 	return all
+}
+
+// vxSettle: run everything until nothing can move and report whether cond holds then. Under the engine that is one
+// vxQuiesce() (exact). Natively a quiescent state can only be approximated by waiting, so the wait is repeated (up
+// to ~6 s) until cond holds: a loaded machine must not turn a clean path into a spurious native failure.
+func vxSettle(cond func() bool) bool {
+	vxQuiesce()
+	if vxSymbolic() {
+		return cond()
+	}
+	for i := 0; i < 100 && !cond(); i++ {
+		vxQuiesce()
+	}
+	return cond()
 }
 
 // The three parking places of the main goroutine name the diagnosis in the HANG finding's id.
